@@ -237,6 +237,13 @@ struct FnGen<'a> {
     n_funcs: usize,
     me: usize,
     blocks: Vec<Block>,
+    /// this function never overwrites the return register outside calls, so return values of extern
+    /// calls reach several return sites (the CWE252 / CWE476 "lost return value" shapes)
+    keep_rax: bool,
+}
+
+fn writes_rax(ins: &[Op]) -> bool {
+    ins.iter().any(|o| matches!(o.lhs["name"].as_str(), Some("RAX") | Some("EAX") | Some("AX") | Some("AL") | Some("AH")))
 }
 
 const GP: [&str; 8] = ["RAX", "RBX", "RCX", "RDX", "RSI", "RDI", "R8", "R12"];
@@ -400,6 +407,9 @@ impl<'a> FnGen<'a> {
                 v.push(self.arith());
             }
         }
+        if self.keep_rax {
+            v.retain(|ins| !writes_rax(ins));
+        }
         v
     }
 }
@@ -421,7 +431,8 @@ pub fn gen_funcs(rng: &mut Rng, knobs: &Knobs) -> ProjectSpec {
     let mut must: Vec<usize> = externs.iter().cloned().filter(|i| knobs.must_call.contains(&voc[*i].name)).collect();
     let mut funcs = Vec::new();
     for me in 0..knobs.n_funcs {
-        let mut g = FnGen { rng, externs: &externs, voc: &voc, strs: &strs, n_funcs: knobs.n_funcs, me, blocks: Vec::new() };
+        let mut g = FnGen { rng, externs: &externs, voc: &voc, strs: &strs, n_funcs: knobs.n_funcs, me, blocks: Vec::new(), keep_rax: false };
+        g.keep_rax = g.rng.chance(1, 3);
         // prologue block
         let frame = 0x18 + 0x10 * g.rng.below(4);
         let mut pro: Vec<Vec<Op>> = vec![
@@ -482,7 +493,7 @@ pub fn gen_funcs(rng: &mut Rng, knobs: &Knobs) -> ProjectSpec {
                 }
                 8 if g.rng.chance(1, 3) => Term::CallOther { ret: next },
                 // an early return (a second return site): `if flag goto b+2 else fall into the return block b+1`
-                8 | 9 if b + 2 <= epi && g.rng.chance(1, 2) => {
+                8 | 9 if b + 2 <= epi && (g.keep_rax || g.rng.chance(1, 2)) => {
                     let (ops, flag) = g.cmp_flag();
                     instrs.push(ops);
                     g.blocks.push(Block { instrs, term: Term::Cond { flag, target: b + 2, fall: b + 1 } });
